@@ -336,3 +336,21 @@ ADDENDA7 = {
 }
 for _p, _t in ADDENDA7.items():
     CLAIMED[_p]['text'] = CLAIMED[_p]['text'].rstrip() + ' ' + _t
+
+# round 18
+ADDENDA8 = {
+    'C01': "(K, extended) the C03 rules as a whole (every evaluation path tests the plain result for underflow and recomputes it rescaled); (H, extended) no model the likelihood reads serves "
+           "a value or view taken from a parameter's tensor at construction; (N, extended) sequence symbols are kept as read, newick read as a rooted tree, one-element slices.",
+    'C02': "(N, extended) `slice(i, i + 1)` built from an index that may be −1; every newick read passes rooting='force-rooted' (keyword tables followed through a local dict); the "
+           "sequence readers strip white space only; (W, extended) no pruning kernel changes the traversal list it is handed (it is the tree model's own).",
+    'C09': "(K, extended) the WHOLE parameter tensor reaches the density under its keyword (no `self.rho.tensor[..., -1:]`); (I, extended) every per-tip term of the block that classifies "
+           "the tips carries the rho / psi classification; (F, extended) the constant and the skyline model declare the same domain for shared parameters.",
+    'C10': "(R, extended) the pruning kernels are handed the same frequencies / weights expressions at every call site (sibling rule); (P, extended) hstack / vstack / dstack / "
+           "column_stack of values with sample dimensions.",
+    'C12': "(D, extended) a formula chosen by testing a computed value for equality with a constant; property setters are scanned, a `no_grad` write in a setter is accepted only "
+           "under a `requires_grad` test; `eigh` of `tril` / `triu`.",
+    'C16': "(K, extended) every redefinition of the momentum between its draw and the integrator call (mixing with a kept momentum, rescaling) must be followed by the K0 evaluation.",
+    'C17': "(E, extended) update_parameters keeps from the specification, or copies from the checkpoint, the `dtype` and the `nn` flag of a parameter whose saved value it substitutes.",
+}
+for _p, _t in ADDENDA8.items():
+    CLAIMED[_p]['text'] = CLAIMED[_p]['text'].rstrip() + ' ' + _t
